@@ -377,6 +377,12 @@ func C01(c *Ctx) {
 	c.Rule(r1, "plain writes of a key always carry the same internal key (version MaxUint64), so wherever two sources may hold equal internal keys the more recent source must win: memtables newest first with first-hit-wins; L0 tables; ingest buffer before the level's main tables; tables inside an ingest shard; the iterator list and the merge iterator's tie-break; compaction input order")
 	recencySites(c, r1)
 
+	const r4 = "K2.gc-liveness-guard"
+	gcLivenessGroup(c, r4)
+	const r5 = "K1.compaction-keeps-every-entry"
+	compactionKeepsAllGroup(c, r5)
+	const r6 = "K2.delete-and-expiry-semantics"
+	deleteSemanticsGroup(c, r6)
 	const r2 = "K12.sentinel-version"
 	c.Rule(r2, "every non-transactional entry point builds its internal key with the one constant nonTxnMaxVersion (MaxUint64): DB.setEntry, DB.GetCF, DBIterator.Seek")
 	for _, n := range []string{"DB.setEntry", "DB.GetCF", "DBIterator.Seek"} {
